@@ -115,6 +115,34 @@ def check_split(ck: Check):
     if core.kernel_failing("Codec Split", "run_c16_split", [(S(cases[i]), model[i]) for i in idx], "C16"):
         raise core.MachineryError("kernel and extracted model disagree on run_c16_split")
     ck.kernel_checked += len(idx)
+    # the fallback splitter of execute_string (conn._split_statements, fix 62d0ba5: used when a statement does not parse) cuts at the same
+    # places as the model - compared token by token, on every text that tokenizes (whether or not it parses)
+    import sqlglot
+
+    from fakesnow.conn import _split_statements
+
+    def toks(t_):
+        return [(x.token_type.name, x.text) for x in sqlglot.tokenize(t_, read="snowflake")]
+
+    bad_fb = None
+    extra = ["select 1; delete from t wher k = 1; select 2", "select 1 +; select 2", "select (1; select 2", "select 1;;; select 'a;b' +", "-- c\n; select 1 +"]
+    fb_cases = list(cases) + extra
+    fb_model = list(model) + core.model_eval("run_c16_split", [S(t_) for t_ in extra])
+    for t, m in zip(fb_cases, fb_model):
+        if not m:
+            continue
+        try:
+            fb = [toks(x) for x in _split_statements(t)]
+            want_fb = [tk for tk in (toks(unstr(p_)) for p_ in m[0]) if tk]
+        except Exception:  # noqa: BLE001  (texts that do not tokenize are outside both)
+            continue
+        ck.cov["evaluations"] += 1
+        ck.count("split:fallback")
+        if fb != want_fb and bad_fb is None:
+            bad_fb = (t, _split_statements(t), [unstr(p_) for p_ in m[0]])
+    if bad_fb:
+        ck.violation(f"execute_string's fallback splitter cuts {bad_fb[0]!r} into {bad_fb[1]}, the model into {bad_fb[2]}; Props_C16.split_join no longer covers the fallback path",
+                     {"text": bad_fb[0], "impl": bad_fb[1], "model": bad_fb[2], "theorem": "Props_C16.split_join"}, no_input=True)
     if dis:
         i = min(dis, key=lambda j: len(cases[j]))
         ck.violation(f"statement splitting: sqlglot gives {impl[i]} for {cases[i]!r}, the model cuts it into {[unstr(p) for p in model[i][0]] if model[i] else None}; "
